@@ -2,6 +2,7 @@
 // replay, worker processes), obligations, evidence output.
 #include "symrt_internal.hh"
 #include <cassert>
+#include <cfenv>
 #include <chrono>
 #include <csignal>
 #include <cstdio>
@@ -58,7 +59,9 @@ static Path_Stats g_ps;
 z3::context& ctx() { if (!g_ctx) g_ctx = new z3::context(); return *g_ctx; }
 bool replaying() { return false; }
 
-struct Rt_Guard { bool old; Rt_Guard() : old(g_in_runtime) { g_in_runtime = true; } ~Rt_Guard() { g_in_runtime = old; } };
+// Runtime section: no fault injection, and the default FPU rounding mode (PPL switches the FPU to
+// round-upward for its own code; z3's arithmetic heuristics diverge under it).
+struct Rt_Guard { bool old; int rm; Rt_Guard() : old(g_in_runtime), rm(fegetround()) { g_in_runtime = true; if (rm != FE_TONEAREST) fesetround(FE_TONEAREST); } ~Rt_Guard() { g_in_runtime = old; if (rm != FE_TONEAREST) fesetround(rm); } };
 
 // ------------------------------------------------------------------ messages
 static void send_line(const std::string& s) {
@@ -116,14 +119,40 @@ static void queue_alt(const Decision& last) {
 }
 
 // ------------------------------------------------------------------ solver
+static std::unique_ptr<z3::model> g_last_model;     // model of the last sat answer of timed_check
+static bool g_fresh_obligations = false;
+static bool g_force_fresh = false;
+static long g_fallbacks = 0;
 static z3::check_result timed_check(const expr* assumption) {
   auto t0 = std::chrono::steady_clock::now();
   z3::check_result r;
   g_in_solver = 1;
-  try {
+  if (g_force_fresh) r = z3::unknown;
+  else try {
     if (assumption) { z3::expr_vector v(ctx()); v.push_back(*assumption); r = g_solver->check(v); }
     else r = g_solver->check();
+    if (r == z3::sat) g_last_model.reset(new z3::model(g_solver->get_model()));
   } catch (z3::exception& e) { r = z3::unknown; }
+  if (r == z3::unknown) {
+    // The incremental core gave up: decide the same formula once in a fresh (non-incremental) solver,
+    // which runs z3's preprocessing and tactic selection.
+    try {
+      ++g_fallbacks;
+      z3::solver s2(ctx());
+      z3::params p(ctx()); p.set("timeout", g_query_timeout_ms * 4); s2.set(p);
+      z3::expr_vector as = g_solver->assertions();
+      for (unsigned i = 0; i < as.size(); ++i) s2.add(as[i]);
+      if (assumption) s2.add(*assumption);
+      if (getenv("SYMRT_TRACE") && atoi(getenv("SYMRT_TRACE")) > 2) { std::ofstream d("/tmp/trace_s2.smt2"); d << s2.to_smt2(); d.close(); fprintf(stderr, "s2 check rm=%d\n", fegetround()); }
+      r = s2.check();
+      if (r == z3::sat) g_last_model.reset(new z3::model(s2.get_model()));
+      if (r == z3::unknown && getenv("SYMRT_DUMP_UNKNOWN")) {
+        static int nd = 0; std::ostringstream fn; fn << getenv("SYMRT_DUMP_UNKNOWN") << "/u" << getpid() << "_" << (nd++) << ".smt2";
+        std::ofstream f(fn.str()); f << s2.to_smt2();
+        fprintf(stderr, "unknown reason: %s\n", s2.reason_unknown().c_str());
+      }
+    } catch (z3::exception& e) { r = z3::unknown; }
+  }
   g_in_solver = 0;
   g_ps.solver_s += std::chrono::duration<double>(std::chrono::steady_clock::now() - t0).count();
   if (r == z3::sat) ++g_ps.q_sat; else if (r == z3::unsat) ++g_ps.q_unsat; else ++g_ps.q_unknown;
@@ -158,7 +187,7 @@ static void ensure_model() {
   if (g_have_model) return;
   z3::check_result r = timed_check(0);
   if (r == z3::sat) {
-    g_model.reset(new z3::model(g_solver->get_model())); g_have_model = true;
+    g_model.reset(new z3::model(*g_last_model)); g_have_model = true;
     g_inputs_json = model_inputs_json(*g_model);
     return;
   }
@@ -230,7 +259,7 @@ long value_decision(const std::function<expr(long)>& cond, const std::function<b
     z3::check_result r = timed_check(0);
     if (r == z3::unsat) { g_pending_abort = true; throw Dead_End(); }
     if (r == z3::unknown) abort_path("unknown enumerating values");
-    g_model.reset(new z3::model(g_solver->get_model())); g_have_model = true;
+    g_model.reset(new z3::model(*g_last_model)); g_have_model = true;
   }
   else ensure_model();
   long v;
@@ -266,10 +295,13 @@ void count_concretization() { ++g_ps.concretizations; }
 long param(const std::string& name, long dflt) { auto it = g_params.find(name); return it == g_params.end() ? dflt : it->second; }
 
 void assume(const expr& f) { Rt_Guard rg; poll_abort(); add_pc(f, false); }
+void define(const expr& f) { Rt_Guard rg; g_solver->add(f); }
 bool decide(const expr& f) { return branch(f); }
 bool possible(const expr& f) {
   Rt_Guard rg;
+  g_force_fresh = g_fresh_obligations;
   z3::check_result r = timed_check(&f);
+  g_force_fresh = false;
   if (r == z3::unknown) abort_path("unknown in possible()");
   return r == z3::sat;
 }
@@ -299,12 +331,15 @@ bool check(const expr& f, const std::string& label) {
   Rt_Guard rg;
   poll_abort();
   ++g_ps.checks;
+  if (getenv("SYMRT_TRACE")) { fprintf(stderr, "check %s\n", label.c_str()); if (atoi(getenv("SYMRT_TRACE")) > 1) { std::ofstream d("/tmp/trace_last.smt2"); d << g_solver->to_smt2() << "(assert " << !f << ")\n(check-sat)\n"; } }
   expr nf = (!f).simplify();
   if (nf.is_false()) { ++g_ps.discharged; return true; }
+  g_force_fresh = g_fresh_obligations;
   z3::check_result r = timed_check(&nf);
+  g_force_fresh = false;
   if (r == z3::unsat) { ++g_ps.discharged; return true; }
   if (r == z3::unknown) { g_ps.inconclusive = true; if (g_ps.why.empty()) g_ps.why = "unknown on obligation " + label; return false; }
-  z3::model m = g_solver->get_model();
+  z3::model m = *g_last_model;
   std::ostringstream w; w << m;
   record_violation("check", label, model_inputs_json(m), w.str());
   return false;
@@ -317,12 +352,16 @@ bool check_all(const std::vector<std::pair<z3::expr, std::string> >& obs) {
   expr nf = ctx().bool_val(false);
   for (auto& o : obs) nf = nf || !o.first;
   nf = nf.simplify();
+  if (getenv("SYMRT_TRACE")) { fprintf(stderr, "check_all %zu first=%s\n", obs.size(), obs[0].second.c_str()); if (atoi(getenv("SYMRT_TRACE")) > 1) { std::ofstream d("/tmp/trace_last.smt2"); d << g_solver->to_smt2() << "(assert " << nf << ")\n(check-sat)\n"; } }
+  g_force_fresh = g_fresh_obligations;
   z3::check_result r = nf.is_false() ? z3::unsat : timed_check(&nf);
+  g_force_fresh = false;
   if (r == z3::unsat) { g_ps.checks += obs.size(); g_ps.discharged += obs.size(); return true; }
   bool all = true;
   for (auto& o : obs) all = check(o.first, o.second) && all;
   return all;
 }
+void fresh_obligations(bool on) { g_fresh_obligations = on; }
 void reach(const std::string& label) { note("reach:" + label); }
 void require(bool ok, const std::string& label) {
   Rt_Guard rg;
@@ -388,7 +427,7 @@ static void run_path(void (*fn)(), const std::string& prefix) {
   g_prefix = parse_prefix(prefix);
   g_decisions.clear(); g_dec_str.clear(); g_have_model = false; g_fresh = 0; g_inputs.clear(); g_inputs_json = "{}";
   g_facts.clear(); g_ps = Path_Stats(); g_pending_abort = false; g_viol_this_path = 0;
-  g_fault_kinds = 0; g_fault_fired = false; g_fault_points = 0;
+  g_fault_kinds = 0; g_fault_fired = false; g_fault_points = 0; g_fresh_obligations = false;
   z3::solver s(ctx());
   z3::params p(ctx()); p.set("timeout", g_query_timeout_ms); s.set(p);
   g_solver = &s;
